@@ -29,6 +29,7 @@ import (
 	"verif/harness/canon"
 	futil2 "verif/harness/fixtures/other/util"
 	futil "verif/harness/fixtures/util"
+	fmix "verif/harness/fixtures/mix"
 	fv1 "verif/harness/fixtures/v1"
 )
 
@@ -73,6 +74,8 @@ var c10Roots = []struct {
 		Arr2  [2]*futil2.Dur
 	}]()},
 	{"[]*string", reflect.TypeFor[[]*string]()},
+	{"map[string]mix.Doc", reflect.TypeFor[map[string]fmix.Doc]()},
+	{"[]mix.Doc", reflect.TypeFor[[]fmix.Doc]()},
 	// entries whose literals mention, first, one or the other of two packages that want the same local name
 	{"map[string]struct{A *util.Sub; B *util2.Wrap}", reflect.TypeFor[map[string]struct {
 		A *futil.Sub
@@ -785,7 +788,7 @@ func init() {
 				return &vlitCase{Root: r.Intn(len(c10Roots)), Seed: r.U64(), Depth: 1 + r.Intn(4)}
 			},
 			ShrinkBudget: 6, MaxShrinks: 5,
-			Rule: "random values (depth ≤ 4) of 32 root types (one of them holding composites that differ only below a pointer side by side) built with reflect around fixture named types of three packages, time.Duration and an unnamed struct type: structs with exported and unexported fields, single-level pointers to scalars / strings / named scalars / structs (zero ones included), slices, arrays, maps with string / int / named keys, strings with quotes, newlines, backquotes, NUL and non-UTF-8 bytes, extreme integers, runes, float32/float64 edge values; rendered with snippet.Value through a real writer, then six more times through fresh writers (same bytes, same import names: map order must not show); compared with the model byte for byte (leaf literals and type texts supplied); oracle: every literal parses as a Go expression, and a sample (quick: 300, thorough: all) is compiled as `var vN T = <literal>` with the registered imports and run, canon.Value of the result compared with canon.Value of the original (nil = empty, omitted fields zero)",
+			Rule: "random values (depth ≤ 4) of 34 root types (one of them holding composites that differ only below a pointer side by side) built with reflect around fixture named types of three packages, time.Duration and an unnamed struct type: structs with exported and unexported fields, single-level pointers to scalars / strings / named scalars / structs (zero ones included), slices, arrays, maps with string / int / named keys, strings with quotes, newlines, backquotes, NUL and non-UTF-8 bytes, extreme integers, runes, float32/float64 edge values; rendered with snippet.Value through a real writer, then six more times through fresh writers (same bytes, same import names: map order must not show); compared with the model byte for byte (leaf literals and type texts supplied); oracle: every literal parses as a Go expression, and a sample (quick: 300, thorough: all) is compiled as `var vN T = <literal>` with the registered imports and run, canon.Value of the result compared with canon.Value of the original (nil = empty, omitted fields zero)",
 		}
 		return st
 	}
